@@ -257,6 +257,11 @@ func (flogs *fileLogs) ReadAll(dataID, version dvid.UUID) ([]storage.LogMessage,
 			entryType := binary.LittleEndian.Uint16(data[pos : pos+2])
 			size := int64(binary.LittleEndian.Uint32(data[pos+2 : pos+6]))
 			pos += 6
+			if int64(len(data)) < pos+size {
+				// last record was not completely written (e.g., server died mid-append)
+				dvid.Criticalf("truncated record in filelog %q at position %d: %d of %d payload bytes\n", filename, pos-6, int64(len(data))-pos, size)
+				break
+			}
 			databuf := data[pos : pos+size]
 			pos += size
 			msg := storage.LogMessage{EntryType: entryType, Data: databuf}
@@ -324,6 +329,11 @@ func (flogs *fileLogs) StreamAll(dataID, version dvid.UUID, ch chan storage.LogM
 			entryType := binary.LittleEndian.Uint16(data[pos : pos+2])
 			size := binary.LittleEndian.Uint32(data[pos+2 : pos+6])
 			pos += 6
+			if int64(len(data)) < int64(pos)+int64(size) {
+				// last record was not completely written (e.g., server died mid-append)
+				dvid.Criticalf("truncated record in filelog %q at position %d: %d of %d payload bytes\n", filename, pos-6, int64(len(data))-int64(pos), size)
+				break
+			}
 			databuf := data[pos : pos+size]
 			pos += size
 			ch <- storage.LogMessage{EntryType: entryType, Data: databuf}
